@@ -70,6 +70,8 @@ func c05Check(s *sim, _ bool) vh.HistResult {
 	// logged at different times age differently
 	period := 0
 	at := map[string]int{}
+	byVersion := map[string]int{}
+	lastOfSrc := map[string]string{}
 	for i, st := range s.steps {
 		switch st.Act.Op {
 		case "adv10s":
@@ -115,6 +117,7 @@ func c05Check(s *sim, _ bool) vh.HistResult {
 				}
 				return res
 			}
+			vid := ""
 			for _, k := range s.order {
 				ff := s.files[k]
 				if arr == ff.target()+" "+ff.hash() {
@@ -122,6 +125,24 @@ func c05Check(s *sim, _ bool) vh.HistResult {
 					if _, ok := at[k]; !ok {
 						at[k] = period
 					}
+					vid = ff.Name + " " + ff.hash()
+				}
+			}
+			// one delivery per VERSION (source name + hash), under whatever target name a
+			// retransmission announces (the sender works the target out anew for every transmission)
+			if vid != "" {
+				src := vid[:strings.LastIndex(vid, " ")]
+				if prev, ok := lastOfSrc[src]; ok && prev != vid {
+					byVersion[vid] = 0
+				}
+				lastOfSrc[src] = vid
+				byVersion[vid]++
+				if byVersion[vid] > 1 {
+					res.Viol = fmt.Sprintf("step %d %s: version %q was delivered a second time (this time as %q)\n%s", i, st.Act, vid, arr, s.trace())
+					if agedOut {
+						res.Class = "redelivery-after-cache-ageing"
+					}
+					return res
 				}
 			}
 		}
@@ -251,4 +272,35 @@ func TestC05Versions(t *testing.T) {
 	}
 	runSimCheck(t, "C05", "retransmissions of the latest of two versions of a name (E-HIST)", files, alphabet, c05Check, depth,
 		fmt.Sprintf("all histories up to length %d over two versions of one name (1 and 2 parts, the second after the first): every part up to twice, orderly restart, clock +25 h (x2), cache ageing", depth))
+}
+
+// TestC05Renamed: a retransmission of a delivered version that announces another target name
+// (the rename rule was edited between two runs of the sender) is still the same version.
+func TestC05Renamed(t *testing.T) {
+	files := []*sFile{
+		{Key: "v", Name: "b", Data: "CCCCDD", Cuts: []int64{0, 4, 6}},
+		{Key: "vr", Name: "b", Renamed: "x/b", Data: "CCCCDD", Cuts: []int64{0, 4, 6}},
+	}
+	alphabet := func(hist []sAction) []sAction {
+		var out []sAction
+		for _, f := range files {
+			for p := 0; p < len(f.Cuts)-1; p++ {
+				if histCount(hist, "recv", f.Key, p) < 2 {
+					out = append(out, sAction{Op: "recv", F: f.Key, P: p})
+				}
+			}
+		}
+		for _, op := range []string{"restart", "adv25h", "age", "adv10s"} {
+			if histCount(hist, op, "", 0) < 1 {
+				out = append(out, sAction{Op: op})
+			}
+		}
+		return out
+	}
+	depth := 6
+	if vh.Thorough() {
+		depth = 8
+	}
+	runSimCheck(t, "C05", "retransmission of a version under another target name (E-HIST)", files, alphabet, c05Check, depth,
+		fmt.Sprintf("all histories up to length %d over one 2-part file announced without and with a rename target: every part of either announcement up to twice in any order, orderly restart, clock +10 s / +25 h, cache ageing", depth))
 }
